@@ -1,10 +1,10 @@
 package c05
 
 import (
-	"time"
 	"fmt"
 	"os"
 	"testing"
+	"time"
 
 	"verif/harness/core"
 )
